@@ -1,5 +1,5 @@
 """Steps 2 and 3 of every check: the tie to /repo and the property oracles, per property."""
-import json, math
+import json, math, time
 from fractions import Fraction as F
 from .core import *
 from .gen import *
@@ -447,7 +447,9 @@ def finish(pid, tag, cases, oracle_viols, rule, extra=None):
 
 # ====================================================================================== per property
 _SEED = [0, "quick"]
+_T0 = [0.0]
 def run(pid, tier, seed):
+    _T0[0] = time.time()
     _SEED[0], _SEED[1] = seed, tier
     rng = Rng(seed * 1000 + int(pid[1:]))
     res = globals()["run_" + pid](rng, tier)
@@ -459,8 +461,12 @@ def run(pid, tier, seed):
         # the tie broke but no oracle rejected anything: search the implementation for a concrete failing input
         # with the thorough-size generators and two further seeds before reporting `no-failing-input-found`
         for extra in (1, 2):
-            _SEED[0], _SEED[1] = seed + extra, "thorough"
-            r2 = globals()["run_" + pid](Rng((seed + extra) * 1000 + int(pid[1:])), "thorough")
+            if time.time() - _T0[0] > 200:
+                res["coverage"].setdefault("failing_input_search_note", "stopped early to keep the check within minutes; run --tier thorough for the full search")
+                break
+            # (quick-size generators with further seeds: the thorough-size ones take up to ten minutes per pass; `--tier thorough` runs them)
+            _SEED[0], _SEED[1] = seed + extra, "quick"
+            r2 = globals()["run_" + pid](Rng((seed + extra) * 1000 + int(pid[1:])), "quick")
             found = [v for v in r2["violations"] if v[2].get("kind") not in tie_kinds and v[0] not in known]
             if found:
                 res["violations"] = found
@@ -468,7 +474,7 @@ def run(pid, tier, seed):
                                                            "tie_failures_explained": [v[1][:200] for v in tie_only]}
                 break
         else:
-            res["coverage"]["failing_input_search"] = {"found": False, "note": "thorough-size search with two further seeds accepted everything"}
+            res["coverage"]["failing_input_search"] = {"found": False, "note": "search with two further seeds accepted everything"}
     # source basis: the files this property is anchored in differ from the tree the model was last validated against.  Not an alarm in
     # itself (the correspondence above is the tie); but when the first pass found nothing, look again with two further seeds.
     try:
@@ -482,6 +488,8 @@ def run(pid, tier, seed):
     if rel and not unknown and tier == "quick" and not os.environ.get("VERIF_NO_SEARCH"):
         extra_runs = 0
         for extra in (1, 2):
+            if time.time() - _T0[0] > 200:
+                break           # keep the whole check within a few minutes: the slow properties get one further seed or none
             _SEED[0], _SEED[1] = seed + 7 * extra, "quick"
             r2 = globals()["run_" + pid](Rng((seed + 7 * extra) * 1000 + int(pid[1:])), "quick")
             extra_runs += 1
